@@ -414,3 +414,212 @@ RULES = [
     # declared lengths bound what is accepted (incl. the declared size of a compressed certificate)
     ("C15.CAP", "quick", borrowed("c08", "rule_cap", "C08.CAP", "C15.CAP")),
 ]
+
+
+# ----------------------------------------------------------------- LAYOUT (flat structures)
+_FIX = {"addOne": 1, "addTwo": 2, "addThree": 3, "addFour": 4}
+
+
+def _subst(e, mapping):
+    class S(ast.NodeTransformer):
+        def visit_Name(self, node):
+            if node.id in mapping and isinstance(node.ctx, ast.Load):
+                return mapping[node.id]
+            return node
+    import copy
+    return S().visit(copy.deepcopy(e))
+
+
+def _const(e):
+    try:
+        return ev(e, {})
+    except (Unknown, TypeError):
+        return None
+
+
+def _wtrace(ctx, fi, mapping, depth=0):
+    """wire layout a straight-line serialiser produces: [(kind, size, value expression text)] of the
+    Writer whose `.bytes` it returns; None when the function is not of that shape."""
+    writers = {}
+    body = [s for s in fi.node.body if not (isinstance(s, ast.Expr) and isinstance(s.value, ast.Constant))]
+    for st in body:
+        if isinstance(st, ast.Assign) and len(st.targets) == 1 and isinstance(st.targets[0], ast.Name) \
+                and isinstance(st.value, ast.Call) and call_name(st.value) == "Writer" and not st.value.args:
+            writers[st.targets[0].id] = []
+            continue
+        if isinstance(st, ast.Expr) and isinstance(st.value, ast.Call) and isinstance(st.value.func, ast.Attribute) \
+                and isinstance(st.value.func.value, ast.Name) and st.value.func.value.id in writers:
+            c = st.value
+            w, op = writers[c.func.value.id], c.func.attr
+            if c.keywords or not c.args:
+                return None
+            val = norm(_subst(c.args[0], mapping))
+            if op in _FIX and len(c.args) == 1:
+                w.append(("fix", _FIX[op], val))
+            elif op == "add" and len(c.args) == 2 and _const(c.args[1]) is not None:
+                w.append(("fix", _const(c.args[1]), val))
+            elif op == "add_var_bytes" and len(c.args) == 2 and _const(c.args[1]) is not None:
+                w.append(("varbytes", _const(c.args[1]), val))
+            elif op == "addVarSeq" and len(c.args) == 3 and _const(c.args[1]) is not None and _const(c.args[2]) is not None:
+                w.append(("varbytes", _const(c.args[2]), val) if _const(c.args[1]) == 1
+                         else ("varlist", (_const(c.args[1]), _const(c.args[2])), val))
+            elif op == "addFixSeq" and len(c.args) == 2 and _const(c.args[1]) is not None:
+                w.append(("fixlist", _const(c.args[1]), val))
+            else:
+                return None
+            continue
+        if isinstance(st, ast.AugAssign) and isinstance(st.op, ast.Add) and isinstance(st.target, ast.Attribute) \
+                and st.target.attr == "bytes" and isinstance(st.target.value, ast.Name) and st.target.value.id in writers:
+            w = writers[st.target.value.id]
+            v = st.value
+            if isinstance(v, ast.Call) and depth < 2 and not v.keywords:
+                from ..condeval import _helper
+                h = _helper(ctx.index, v.func)
+                if h is not None:
+                    names = [a.arg for a in h.node.args.args]
+                    if len(names) == len(v.args):
+                        sub = _wtrace(ctx, h, {nm: _subst(a, mapping) for nm, a in zip(names, v.args)}, depth + 1)
+                        if sub is not None:
+                            w += sub
+                            continue
+                return None
+            w.append(("raw", None, norm(_subst(v, mapping))))
+            continue
+        if isinstance(st, ast.Return):
+            v = st.value
+            if isinstance(v, ast.Attribute) and v.attr == "bytes" and isinstance(v.value, ast.Name) and v.value.id in writers:
+                return writers[v.value.id]
+            return None
+        return None
+    return None
+
+
+def _ptrace(ctx, fi):
+    """wire layout a straight-line parser reads and where each field ends up: [(kind, size, destination)]"""
+    args = [a.arg for a in fi.node.args.args]
+    if len(args) < 2:
+        return None
+    P = args[1]
+    trace = []
+    local_at = {}      # local name -> indices in trace (a tuple-valued local: several)
+
+    def reads(e):
+        """(kind, size) list for an expression made of parser reads, else None"""
+        if isinstance(e, ast.Call) and isinstance(e.func, ast.Attribute) and isinstance(e.func.value, ast.Name) \
+                and e.func.value.id == P and not e.keywords:
+            op = e.func.attr
+            a = [_const(x) for x in e.args]
+            if op == "get" and len(a) == 1 and a[0] is not None:
+                return [("fix", a[0])]
+            if op == "getVarBytes" and len(a) == 1 and a[0] is not None:
+                return [("varbytes", a[0])]
+            if op == "getFixBytes" and len(a) == 1 and a[0] is not None:
+                return [("raw", None)]
+            if op == "getVarList" and len(a) == 2 and None not in a:
+                return [("varlist", (a[0], a[1]))]
+            if op == "getFixList" and len(a) == 2 and None not in a:
+                return [("fixlist", a[1])]
+            return None
+        if isinstance(e, ast.Tuple):
+            out = []
+            for x in e.elts:
+                r = reads(x)
+                if r is None or len(r) != 1:
+                    return None
+                out += r
+            return out
+        return None
+
+    def touches(node):
+        return any(isinstance(x, ast.Name) and x.id == P for x in ast.walk(node))
+    body = [s for s in fi.node.body if not (isinstance(s, ast.Expr) and isinstance(s.value, ast.Constant))]
+    for st in body:
+        if isinstance(st, ast.Return):
+            break
+        if not touches(st):
+            # a constructor that files locals under attribute names: self.A = Cls(kw=local, ...)
+            if isinstance(st, ast.Assign) and len(st.targets) == 1 and isinstance(st.value, ast.Call) \
+                    and st.value.keywords and not st.value.args and attr_chain(st.targets[0]):
+                base = attr_chain(st.targets[0])
+                for kw in st.value.keywords:
+                    if isinstance(kw.value, ast.Name) and kw.value.id in local_at:
+                        idx = local_at.pop(kw.value.id)
+                        for j, i_ in enumerate(idx):
+                            k_, s_, _ = trace[i_]
+                            trace[i_] = (k_, s_, "%s.%s%s" % (base, kw.arg, "[%d]" % j if len(idx) > 1 else ""))
+            continue
+        if isinstance(st, (ast.If, ast.For, ast.While, ast.Try, ast.With)):
+            return None
+        if isinstance(st, ast.Assign) and len(st.targets) == 1:
+            r = reads(st.value)
+            if r is None:
+                return None
+            tg = st.targets[0]
+            name = attr_chain(tg)
+            if name is None:
+                return None
+            idx = []
+            for j, (k_, s_) in enumerate(r):
+                idx.append(len(trace))
+                trace.append((k_, s_, "%s%s" % (name, "[%d]" % j if len(r) > 1 else "")))
+            if isinstance(tg, ast.Name):
+                local_at[tg.id] = idx
+            continue
+        if isinstance(st, ast.Expr) and isinstance(st.value, ast.Call) and call_name(st.value) in (
+                "startLengthCheck", "stopLengthCheck", "setLengthCheck"):
+            return None
+        return None
+    if any(not d.startswith("self.") for _, _, d in trace) or not trace:
+        return None
+    return trace
+
+
+def rule_layout(ctx):
+    """LAYOUT (flat structures): for every class whose parse() and write() are straight-line, the
+    sequence of wire fields written - (width, attribute) - equals the sequence read and where it was
+    stored.  Serialisers assembled from static helpers are followed with the arguments substituted.
+    Structures with version- or content-dependent layout are not decided here."""
+    R = "C15.LAYOUT"
+    n = 0
+    names = []
+    for mod in PARSE_MODULES:
+        m = ctx.index.module(mod)
+        for cname, cls in sorted(m.classes.items()):
+            pf, wf = cls.methods.get("parse"), cls.methods.get("write")
+            if pf is None or wf is None:
+                continue
+            pt = _ptrace(ctx, pf)
+            wt = _wtrace(ctx, wf, {})
+            if pt is None or wt is None:
+                continue
+            # `addTwo(len(x)); bytes += x` is the hand-written form of add_var_bytes(x, 2)
+            canon = []
+            for el in wt:
+                if canon and el[0] == "raw" and canon[-1][0] == "fix" and canon[-1][2] == "len(%s)" % el[2]:
+                    canon[-1] = ("varbytes", canon[-1][1], el[2])
+                else:
+                    canon.append(el)
+            wt = canon
+            n += 1
+            names.append(cname)
+            same = len(pt) == len(wt) and all(
+                (a[0] == b[0] or {a[0], b[0]} <= {"raw", "fixlist"}) and (a[1] == b[1] or None in (a[1], b[1]))
+                and a[2] == b[2] for a, b in zip(wt, pt))
+            diff = ""
+            if not same:
+                for i_, (a, b) in enumerate(zip(wt, pt)):
+                    if a != b:
+                        diff = "field %d is written from `%s` as %s/%s but parsed into `%s` as %s/%s" % (
+                            i_ + 1, a[2], a[0], a[1], b[2], b[0], b[1])
+                        break
+                else:
+                    diff = "%d fields written, %d parsed" % (len(wt), len(pt))
+            ctx.check(R, same, wf.qname, "write() mirrors parse()",
+                      "%s.write does not serialise what %s.parse reads: %s (parse(write(x)) differs from x)" % (
+                          cname, cname, diff), wf.loc(), what="%s: write() mirrors parse() (%d fields)" % (cname, len(pt)))
+    ctx.info["layout_classes"] = names
+    if n < 1 or "DelegatedCredential" not in names:
+        raise AnalysisError("%s: flat parse/write pairs recognised: %s (DelegatedCredential must be among them)" % (R, names))
+
+
+RULES.append(("C15.LAYOUT", "quick", rule_layout))
